@@ -132,6 +132,7 @@ func runC18(r *Run) {
 	var since []float64
 	pure := true // only Adds since reset (no Update)
 	resets, addsAfterReset := 0, 0
+	varPrev, varKnown := 0.0, true
 	warm := -1
 	var w, wu int
 	var alpha float64
@@ -158,7 +159,16 @@ func runC18(r *Run) {
 				r.Fail("not-finite", key, "Add(%v) returned %v (Get %v) [%s]", op.x, v, after, mf.name)
 				return
 			}
-			if after != stored && !flag {
+			if key == "variance" {
+				// Add returns (and stores) the standard deviation while Get reports the variance; Update overwrites
+				// the stored deviation only. The flag is therefore compared with the previously returned deviation,
+				// and only while no Update intervened.
+				if varKnown && v != varPrev && !flag {
+					r.Fail("flag-false-on-change", key, "Add(%v) changed the stored deviation from %v to %v but reported changed=false [%s]", op.x, varPrev, v, mf.name)
+					return
+				}
+				varPrev, varKnown = v, true
+			} else if after != stored && !flag {
 				r.Fail("flag-false-on-change", key, "Add(%v) changed the stored value from %v to %v but reported changed=false [%s]", op.x, stored, after, mf.name)
 				return
 			}
@@ -218,6 +228,7 @@ func runC18(r *Run) {
 			}
 		case 2:
 			m.Reset()
+			varPrev, varKnown = 0, true
 			twin = mf.mk()
 			since = nil
 			pure = true
@@ -230,6 +241,7 @@ func runC18(r *Run) {
 			}
 		case 3:
 			applyUpdate(m, op.f)
+			varKnown = false
 			if twin != nil {
 				applyUpdate(twin, op.f)
 				if g, tg := m.Get(), twin.Get(); g != tg && !(math.IsNaN(g) && math.IsNaN(tg)) {
